@@ -14,6 +14,12 @@ import (
 // runOpenSSL runs `openssl enc [-d] -aes-256-cbc -md md5 -a -A -pass pass:S`.
 // started=false means the binary could not be run at all (sample skipped).
 func runOpenSSL(decrypt bool, secret, stdin []byte) (stdout, stderr []byte, exit int, started bool) {
+	return runOpenSSLMode(decrypt, true, secret, stdin)
+}
+
+// runOpenSSLMode: oneLine=false leaves out -A, so that an encryption prints the
+// base64 the way `openssl enc -a` does by default: 64 characters per line.
+func runOpenSSLMode(decrypt, oneLine bool, secret, stdin []byte) (stdout, stderr []byte, exit int, started bool) {
 	if opensslPath == "" {
 		return nil, nil, 0, false
 	}
@@ -21,7 +27,11 @@ func runOpenSSL(decrypt bool, secret, stdin []byte) (stdout, stderr []byte, exit
 	if decrypt {
 		args = append(args, "-d")
 	}
-	args = append(args, "-aes-256-cbc", "-md", "md5", "-a", "-A", "-pass", "pass:"+string(secret))
+	args = append(args, "-aes-256-cbc", "-md", "md5", "-a")
+	if oneLine {
+		args = append(args, "-A")
+	}
+	args = append(args, "-pass", "pass:"+string(secret))
 	ctx, cancel := context.WithTimeout(context.Background(), 60*time.Second)
 	defer cancel()
 	cmd := exec.CommandContext(ctx, opensslPath, args...)
